@@ -120,13 +120,24 @@ pub fn spec(check: &str, tier: &str) -> Option<CheckSpec> {
             let mut progs = fam::race_a(tier);
             let na = progs.len();
             progs.extend(fam::race_s(tier));
+            let mut js = jobs("C04", tier, progs, &cfg);
+            // the same verdicts with location capture on (Builder.location)
+            let mut cl = cfg.clone();
+            cl.location = true;
+            let step = if tier == "quick" { 8 } else { 1 };
+            let loc_progs: Vec<Program> = fam::race_a_sentinels().into_iter().step_by(step).collect();
+            let mut more = jobs("C04", tier, loc_progs, &cl);
+            for j in more.iter_mut() {
+                j.id = format!("{}-loc", j.id);
+            }
+            js.extend(more);
             Some(CheckSpec {
                 id: "C04",
                 level: "model_checking",
                 rule: "RACE-a: every LIT program on one flag location with two conflicting cell accesses inserted at every pair of positions (optionally guarded by the preceding load) + sentinels; RACE-s: the same insertion into small lock/channel/notify/condvar/park programs; non-trivial = the reference has a racy execution",
                 assumptions: vec!["RC11 happens-before for atomics/fences; SC machine vector clocks built from the edges the property names (spawn/join, lock hand-over, message, unpark, notify)"],
                 wall_cap: wall,
-                jobs: jobs("C04", tier, progs, &cfg),
+                jobs: js,
                 self_checks: vec![litmus_selfcheck()],
                 completed_level: format!("RACE-a {} programs, RACE-s the rest ({})", na, tier),
                 abort_is_violation: true,
